@@ -6,22 +6,17 @@ bottom-right cell: it writes the glyph one column to the left, moves the cursor 
 (`ich1`), which pushes the glyph into the last cell, and repaints the cell it borrowed.  Layer A (`Lemmas/DrawCorner.lean`)
 carries this through the cross-Show invariant on the abstract terminal (`ATerm.insertAt`).  Here:
 
-* `ich_feed` — `CSI @` on the reference emulator is ICH with count 1;
-* `sim_insertChar` — **the simulation step for `Cmd.insertChar`** in the situation the trick creates (`AdmitIch`: the cursor is in
-  the last-but-one column on a narrow glyph the terminal is known to show, nothing is known to straddle the margin): the
-  emulator, fed the bytes of `ich1`, represents `ATerm.insertAt` — the glyph has moved into the last column with its
-  rendition, the borrowed cell is an erased cell (nothing claimed), the cursor has not moved, no wrap is pending, nothing
-  else on the screen has changed;
+* `ich_feed` — `CSI @` on the reference emulator is ICH with count 1; `ichFx_of`: hence `IchFx` for every description whose `ich1`
+  is (padding removed) `CSI @`;
+* (`sim_insertChar`, `AdmitIch`, `IchFx` live in `Lemmas/LayerBCmd.lean`: **the simulation step for `Cmd.insertChar`** is a case of
+  `sim_cmd`; `Lemmas/LayerBAdmit.lean` `corner_step` proves every `ich1` of every draw admissible — the history theorems for
+  corner-trick terminals are `Props.C01B.cl_show_faithful_bytes` …);
 * `corner_trick_bytes` — the whole first half of the trick `goto (w-2, y); setPen s; put glyph; goto (w-2, y); ich1`, from ANY
   emulator state that represents the abstract terminal, for every terminal description with `CapsFx` and an `ich1` that is
   `CSI @`: the emulator shows the glyph with `penOf rc s` in the LAST column of row `y`, the cursor is known and in column
   `w-2` with no wrap pending (so the screen has not scrolled) and the tokenizer has not complained;
-* `xl_capsFx'` / `cygwin_corner_bytes` — `CapsFx` does not depend on the corner-trick conjunct of the class (`CapsOk`), so the
-  statement holds without effect hypotheses for the database entry cygwin (the corner-trick entry all of whose other strings are
-  in the class; beterm's `op` is `CSI m`, sun / sun-color clear with FF and have no `smul`: not covered).
-
-Not done: admitting `Cmd.insertChar` in `draw_admits` (i.e. the byte-level history theorems for the corner-trick entries);
-that needs the Layer-A corner invariant (`World.SafeRun`) threaded through `LayerBAdmit`.
+* `xl_corner_trick_bytes` / `Props.C01B.cygwin_corner_bytes` — `CapsFx` does not depend on the corner-trick conjunct of the class
+  (`CapsOk`), so the statement holds without effect hypotheses for the database entries of `CornerLike`.
 -/
 import Tcell.Lemmas.LayerBXtermFx
 namespace Tcell.LayerB
@@ -34,138 +29,10 @@ theorem ich_feed {rw} {t : Term} (g : Good rw t) : t.feed [27, 91, 64] = t.inser
   simp only [csiSeq, List.append_nil, List.cons_append, List.nil_append] at this
   rw [this]; simp [dispatchPlain, argCount, arg, flat]
 
-/-- the effect asked of the insert-character string -/
-def IchFx (dc : DrawCfg) (rc : RenderCfg) : Prop :=
-  ∀ t : Term, Good dc.rw t → t.feed (Render.render rc .insertChar) = t.insertChars 1
-
 theorem ichFx_of (dc : DrawCfg) (rc : RenderCfg) (h : Tcell.Spec.TermCaps.stripPadding rc.ti.insertChar = [27, 91, 64]) :
     IchFx dc rc := by
   intro t g
   simp only [Render.render, tp_strip, h]; exact ich_feed g
-
-/-- the situation in which the corner trick inserts: cursor known, in the grid, in the last-but-one column, on a narrow
-    glyph the terminal is known to show; the last cell is not known to be a right half -/
-def AdmitIch (a : ATerm) : Prop :=
-  ∃ x y b st, a.cur = some (x, y) ∧ a.inGrid x y ∧ a.grid x y = .shown b false st ∧ a.grid (x + 1) y ≠ .cont ∧ x + 2 = a.w
-
-/-- ICH on the abstract terminal in the corner-trick situation: the glyph under the cursor moves into the last column, the
-    cell under the cursor becomes an erased cell (nothing claimed), nothing else changes -/
-theorem insertAt_corner_grid (a : ATerm) (x y : Int) (b : List Nat) (st : Style) (hsh : a.grid x y = .shown b false st)
-    (hw2 : x + 2 = a.w) (i j : Int) :
-    (a.insertAt x y).grid i j =
-      if j = y ∧ i = x then .garbage else if j = y ∧ i = x + 1 then .shown b false st else a.grid i j := by
-  simp only [ATerm.insertAt]
-  by_cases h1 : j = y ∧ i = x
-  · rw [if_pos h1, if_pos h1]
-  · rw [if_neg h1, if_neg h1, if_neg (by rw [hsh]; intro h; cases h.2.2)]
-    by_cases h2 : j = y ∧ i = x + 1
-    · rw [if_pos ⟨h2.1, by omega, by omega⟩, if_pos h2]
-      obtain ⟨rfl, rfl⟩ := h2
-      rw [show x + 1 - 1 = x by omega, hsh]
-    · rw [if_neg h2, if_neg (by intro h; exact h2 ⟨h.1, by omega⟩)]
-
-/-- **simulation of `insertChar`** (ICH) in the corner-trick situation -/
-theorem sim_insertChar {dc : DrawCfg} {rc : RenderCfg} (hich : IchFx dc rc) {t : Term} {a : ATerm} (R : Rep dc rc t a)
-    (had : AdmitIch a) : Rep dc rc (t.feed (Render.render rc .insertChar)) (a.apply .insertChar) := by
-  obtain ⟨x, y, b, st, hcur, hin, hsh, hnc, hw2⟩ := had
-  obtain ⟨hx0, hxw, hy0, hyh⟩ := hin
-  obtain ⟨ck, ccy, c1, _⟩ := R.cur x y hcur hx0 hy0
-  have hgw := R.w; have hgh := R.h
-  obtain ⟨ccx, cpw⟩ := c1 (by omega)
-  have ea : a.apply .insertChar = a.insertAt x y := by
-    simp only [ATerm.apply, hcur]; rw [if_pos ⟨hx0, hxw, hy0, hyh⟩]
-  have exi : ((t.cx : Nat) : Int) = x := by omega
-  have eyi : ((t.cy : Nat) : Int) = y := by omega
-  have hcxw : t.cx + 2 = t.grid.w := by omega
-  have hcyh : t.cy < t.grid.h := by omega
-  have cr := R.cells t.cx t.cy (by omega) hcyh
-  rw [exi, eyi, hsh] at cr
-  obtain ⟨cr1, cr2, cr3, cr4⟩ := cr
-  have hc1 : (t.grid.get (t.cx + 1) t.cy).cont = false := by
-    cases h : (t.grid.get (t.cx + 1) t.cy).cont
-    · rfl
-    · rcases R.conts t.cx t.cy h with h' | h'
-      · rw [exi, eyi] at h'; exact absurd h' hnc
-      · rw [exi, eyi, hsh] at h'; cases h'
-  -- the emulator side in closed form
-  have eg : t.insertChars 1 =
-      { t with grid := Grid.build t.grid.w t.grid.h (fun x' y' =>
-                 if y' = t.cy ∧ t.cx ≤ x' then (if x' < t.cx + 1 then t.blankCell else Grid.touch (t.grid.get (x' - 1) y') t.blocks)
-                 else t.grid.get x' y'),
-               pendingWrap := false } := by
-    have hlast : t.grid.w - 1 = t.cx + 1 := by omega
-    simp [insertChars, ck, Grid.insertBlanks, cr1, hlast, hc1]
-  rw [ea, hich t R.good, eg]
-  have hget : ∀ i j, i < t.grid.w → j < t.grid.h →
-      (Grid.build t.grid.w t.grid.h (fun x' y' =>
-         if y' = t.cy ∧ t.cx ≤ x' then (if x' < t.cx + 1 then t.blankCell else Grid.touch (t.grid.get (x' - 1) y') t.blocks)
-         else t.grid.get x' y')).get i j =
-      if j = t.cy ∧ t.cx ≤ i then (if i < t.cx + 1 then t.blankCell else Grid.touch (t.grid.get (i - 1) j) t.blocks)
-      else t.grid.get i j := fun i j hi hj => Grid.get_build _ _ _ _ _ hi hj
-  have hagrid := insertAt_corner_grid a x y b st hsh hw2
-  exact {
-    good := ⟨R.good.st, R.good.utf8, R.good.font, R.good.g0, R.good.so, R.good.irm, R.good.mal, R.good.rw⟩
-    quiet := ⟨R.quiet.link, R.quiet.vis⟩
-    w := R.w, h := R.h
-    cells := by
-      intro i j hi hj
-      have hi' : i < t.grid.w := hi
-      have hj' : j < t.grid.h := hj
-      clear hi hj
-      show CellRep rc (Grid.get _ i j) _
-      rw [hget i j hi' hj', hagrid]
-      by_cases h1 : j = t.cy ∧ i = t.cx
-      · rw [if_pos (show (j : Int) = y ∧ (i : Int) = x from ⟨by omega, by omega⟩)]; trivial
-      · rw [if_neg (show ¬ ((j : Int) = y ∧ (i : Int) = x) from by omega)]
-        by_cases h2 : j = t.cy ∧ i = t.cx + 1
-        · obtain ⟨rfl, rfl⟩ := h2
-          rw [if_pos (show ((t.cy : Nat) : Int) = y ∧ ((t.cx + 1 : Nat) : Int) = x + 1 from ⟨by omega, by omega⟩),
-            if_pos (show t.cy = t.cy ∧ t.cx ≤ t.cx + 1 from ⟨rfl, by omega⟩), if_neg (show ¬ t.cx + 1 < t.cx + 1 by omega),
-            show t.cx + 1 - 1 = t.cx by omega]
-          exact ⟨cr1, cr2, cr3, cr4⟩
-        · rw [if_neg (show ¬ ((j : Int) = y ∧ (i : Int) = x + 1) from by omega),
-            if_neg (show ¬ (j = t.cy ∧ t.cx ≤ i) from by omega)]
-          exact R.cells i j hi' hj'
-    conts := by
-      intro i j hc
-      have hc' : (Grid.get (Grid.build t.grid.w t.grid.h (fun x' y' =>
-         if y' = t.cy ∧ t.cx ≤ x' then (if x' < t.cx + 1 then t.blankCell else Grid.touch (t.grid.get (x' - 1) y') t.blocks)
-         else t.grid.get x' y')) (i + 1) j).cont = true := hc
-      clear hc
-      by_cases hr : i + 1 < t.grid.w ∧ j < t.grid.h
-      · rw [hget (i + 1) j hr.1 hr.2] at hc'
-        by_cases h1 : j = t.cy ∧ t.cx ≤ i + 1
-        · rw [if_pos h1] at hc'
-          by_cases h2 : i + 1 < t.cx + 1
-          · rw [if_pos h2] at hc'; simp [blankCell] at hc'
-          · rw [if_neg h2] at hc'
-            have : i + 1 - 1 = t.cx := by omega
-            obtain ⟨rfl, _⟩ := h1
-            rw [this] at hc'
-            simp [Grid.touch, cr1] at hc'
-        · rw [if_neg h1] at hc'
-          rw [hagrid, hagrid]
-          rcases R.conts i j hc' with h | h
-          · left
-            rw [if_neg (show ¬ ((j : Int) = y ∧ (i : Int) + 1 = x) from by omega),
-              if_neg (show ¬ ((j : Int) = y ∧ (i : Int) + 1 = x + 1) from by omega)]; exact h
-          · right
-            by_cases h3 : (j : Int) = y ∧ (i : Int) = x
-            · rw [if_pos h3]
-            · rw [if_neg h3, if_neg (show ¬ ((j : Int) = y ∧ (i : Int) = x + 1) from by omega)]; exact h
-      · exfalso
-        have : (Grid.build t.grid.w t.grid.h (fun x' y' =>
-           if y' = t.cy ∧ t.cx ≤ x' then (if x' < t.cx + 1 then t.blankCell else Grid.touch (t.grid.get (x' - 1) y') t.blocks)
-           else t.grid.get x' y')).get (i + 1) j = {} := Grid.get_out _ _ _ (by simpa [Grid.build] using hr)
-        rw [this] at hc'; cases hc'
-    cur := by
-      intro x' y' hc hx' hy'
-      have : (a.insertAt x y).cur = a.cur := rfl
-      rw [this, hcur] at hc
-      simp only [Option.some.injEq, Prod.mk.injEq] at hc
-      obtain ⟨rfl, rfl⟩ := hc
-      exact ⟨ck, ccy, fun _ => ⟨ccx, rfl⟩, fun h => by exfalso; have h' : x = ((t.grid.w : Nat) : Int) := h; omega⟩
-    pen := R.pen, vis := R.vis, shape := R.shape }
 
 /-! ## the first half of the trick as a whole -/
 
@@ -225,7 +92,7 @@ theorem corner_trick_bytes {dc : DrawCfg} {rc : RenderCfg} (hrw : RwB dc.rw) (fx
     rw [e1]; refine ⟨hs, ?_⟩
     rw [e2]; refine ⟨⟨a.w - 2, y, s, rfl, rfl, hin2, by show a.w - 2 + 1 ≤ a.w; omega, hp⟩, ?_⟩
     rw [e3]; exact ⟨⟨by omega, hy0, by omega, by omega⟩, trivial⟩
-  have R4 := sim_all hrw fx _ R ad
+  have R4 := sim_all hrw fx (fun _ => hich) _ R ad
   rw [eall4] at R4
   -- the insertion
   have g33 : a4.grid (a.w - 2) y = .shown bytes false s := by
